@@ -248,6 +248,11 @@ def ToReal(x):
     return E(zc.Z3_mk_int2real(C.c, x.a), 'r')
 
 
+def ToInt(x):
+    """real -> int (floor); exact for integer-valued terms"""
+    return E(zc.Z3_mk_real2int(C.c, x.a), 'i')
+
+
 def Not(x):
     if x is True:
         return False
